@@ -9,7 +9,7 @@ CLAIMS = {
     note=TB + 'the executable model used for the correspondence (Fangs.build/finalize/searchP, with fang scopes) is checked equal to the proved greedyChain on every run for applications without fangs; with fang scopes the compression differs and the outcome is judged by the property relation; OPTIONS handled in C14',
     technique='Lean 4 proof (refinement: bytes -> trie -> flat-table spec; permutation invariance) + model/implementation correspondence'),
  'C02': dict(
-    text='Lean 4 theorems over the model of Request::read (parse_encode: every well-formed request is accepted and read back as exactly what its bytes denote; parse_never_panics: every byte string is answered ok / error status / close), tied to the code by regenerated header and method tables and a differential run of the real parser (hook H2) against the model and an independent grammar-based reader, with every accessor called under catch_unwind',
+    text='Lean 4 theorems over the model of Request::read (parse_encode: every well-formed request is accepted and read back as exactly what its bytes denote; parse_sound: conversely, every accepted first read has the shape method SP path [?query] SP HTTP/1.1 CRLF header-lines CRLF rest, and the request object is exactly what that shape denotes — headers folded in order, payload = the first Content-Length bytes after the head; parse_never_panics: every byte string is answered ok / error status / close), tied to the code by regenerated header and method tables and a differential run of the real parser (hook H2) against the model and an independent grammar-based reader, with every accessor called under catch_unwind',
     note=TB + 'modelled not verified: byte_reader primitives, from_utf8, from_utf8_lossy, percent_decode (hand models validated by the correspondence run); head larger than the first read is C06',
     technique='Lean 4 proof (round trip + totality of the parser model) + model/implementation correspondence'),
  'C03': dict(
@@ -21,8 +21,8 @@ CLAIMS = {
     note=TB + 'ScopeStatement is stated in Lean (Fangs.lean) but its proof is not complete: for scope the assurance is model/impl correspondence + the independent configuration-level spec; tuple nesting of Fangs::build and local-fang wrapping are validated by the traces',
     technique='Lean 4 proof (onion order, early answer) + model/implementation correspondence for scope'),
  'C05': dict(
-    text='partial: Lean 4 theorem no_residue over the model of the keep-alive loop (clear, one read into the 1 KiB buffer, head parsed from the bytes read, body completed by read_exact, handle, send; refused requests answered and the loop continued): for every application and every connection script, the handler is never given anything an earlier request left behind; tied to the code by a differential run of a mirror of the session loop (hooks H2, scripted in-memory connection) against the model with an echo application that prints everything observable (headers, payload, params, query, a per-request context entry), and by the metamorphic check on the implementation itself: k-th response = response of the same request alone on a fresh connection, in order, nothing after Connection: close',
-    note=TB + 'cannot be exhibited by the model and not verified: real TCP, the keep-alive timer, task scheduling; the harness mirrors the loop of session/mod.rs (tied to TcpStream) through the hooks; the statement "k-th response = fresh response" is decided per run on the implementation, its Lean proof (one_per_chunk) is not written',
+    text='Lean 4 theorems over the model of the keep-alive loop: one_per_chunk (if every read delivers exactly one complete request, the responses are, in order, what each request is answered alone on a fresh connection — fresh_connection — and nothing follows the response to Connection: close; any application, any number of requests, any bytes and sizes) and no_residue (clear, one read into the 1 KiB buffer, head parsed from the bytes read, body completed by read_exact, handle, send; refused requests answered and the loop continued): for every application and every connection script, the handler is never given anything an earlier request left behind; tied to the code by a differential run of a mirror of the session loop (hooks H2, scripted in-memory connection) against the model with an echo application that prints everything observable (headers, payload, params, query, a per-request context entry), and by the metamorphic check on the implementation itself: k-th response = response of the same request alone on a fresh connection, in order, nothing after Connection: close',
+    note=TB + 'cannot be exhibited by the model and not verified: real TCP, the keep-alive timer, task scheduling; the harness mirrors the loop of session/mod.rs (tied to TcpStream) through the hooks; the statement "k-th response = fresh response" is a theorem of the model (one_per_chunk) and is decided per run on the implementation as well',
     technique='Lean 4 proof (loop invariant by induction over the loop) + model/implementation correspondence + metamorphic oracle'),
  'C06': dict(
     text='partial: Lean 4 theorems over the same session model (readExact_flatten: read_exact returns exactly the next n bytes of the stream however they are split; no_residue for every segmentation); the executable model predicts the session under every segmentation exactly, including the two unsupported classes; per run: every single split point of several requests, random multi-splits, chunks beyond the buffer, compared with the canonical one-read-per-request segmentation on the implementation; the classes head_split and coalesced are recorded known findings',
